@@ -10,14 +10,27 @@ Definition Qclose (tol a b : Q) : bool := Qle_bool (Qabs (a - b)) (tol * (1 + Qa
 Definition row_ok (tol : Q) (m o : row6) : bool :=
   let '(a, b, c, d, e, f) := m in
   let '(a', b', c', d', e', f') := o in
-  Z.eqb a a' && Z.eqb b b' && Z.eqb c c' && Qclose tol d d' && Qclose tol e e' && Qclose tol f f'.
+  if Z.eqb a a' && Z.eqb b b' && Z.eqb c c' then Qclose tol d d' && Qclose tol e e' && Qclose tol f f' else false.
 
-Fixpoint rows_ok (tol : Q) (ms os : list row6) : bool :=
-  match ms, os with
-  | [], [] => true
-  | m :: ms', o :: os' => row_ok tol m o && rows_ok tol ms' os'
-  | _, _ => false
+(* Rows are compared as a set: the minibatch loop draws a random permutation of the rows anyway, so the order in
+   which learn() lists them is not an observable of the property.  Every observed row must equal the model's row
+   with the same observation tag; the observed tags are pairwise distinct and the counts agree. *)
+Fixpoint nodupZ (l : list Z) : bool :=
+  match l with
+  | [] => true
+  | x :: l' => negb (existsb (Z.eqb x) l') && nodupZ l'
   end.
+Definition obs_tag (r : row6) : Z := match r with (a, _, _, _, _, _) => a end.
+(* (vm_compute is call-by-value: [if] keeps the rational comparisons off the rows whose tags differ) *)
+Definition rows_ok (tol : Q) (ms os : list row6) : bool :=
+  if Nat.eqb (length ms) (length os) then
+    if nodupZ (map obs_tag os) then
+      forallb (fun o => match find (fun m => Z.eqb (obs_tag m) (obs_tag o)) ms with
+                        | Some m => row_ok tol m o
+                        | None => false
+                        end) os
+    else false
+  else false.
 
 (* the harness tags the observation, action and old log-prob of (t, agent a, env e) with t*64 + a*8 + e + 1 *)
 Definition tagmat (T E a : nat) : list (list Z) :=
